@@ -229,6 +229,21 @@ pub fn check_two(a: &[u8], b: &[u8]) -> CaseResult {
     if let Some(f) = no_panic("UnixStr::path_file_name", || j.path_file_name())? {
         terminated("path_join.path_file_name", &inp, f.as_slice(), f.as_ptr(), f.len(), true)?;
     }
+    // an owned string obtained from another one through Clone (clone, and clone_from into a string that
+    // already holds something else, longer or shorter), then used as an operand
+    let (oa, ob) = (UnixString::from(ua), UnixString::from(ub));
+    for (from, into, what) in [(&oa, &ob, "b.clone_from(a)"), (&ob, &oa, "a.clone_from(b)")] {
+        let c = no_panic("UnixString::clone", || from.clone())?;
+        term_string("UnixString::clone", &inp, &c, true)?;
+        let mut t = into.clone();
+        no_panic("UnixString::clone_from", || t.clone_from(from))?;
+        term_string(&format!("UnixString::clone_from [{what}]"), &inp, &t, true)?;
+        ensure!(t.as_slice() == from.as_slice(), "UnixString::clone_from|not-equal-to-source".to_string(), "{what} with a, b = {inp}: the target holds {:?}, the source {:?}", escape(t.as_slice()), escape(from.as_slice()));
+        let j = no_panic("UnixStr::path_join", || t.path_join(ub))?;
+        term_string("clone_from.path_join", &inp, &j, true)?;
+        rep.class_if(into.len() > from.len(), "clone_from-into-a-longer-string");
+        rep.class_if(into.len() < from.len(), "clone_from-into-a-shorter-string");
+    }
     rep.nontrivial_if(!a.is_empty() && !b.is_empty());
     rep.class_if(a.is_empty() || b.is_empty(), "empty-operand");
     rep.class_if(a.last() == Some(&b'/') && b.first() == Some(&b'/'), "two-separators");
